@@ -46,7 +46,7 @@ def run(chk) -> None:
         check_isolated_pinned(chk)
     if foreign_mutations(chk) == 0:
         chk.ok("foreign-write", "package", "no function outside common.py changes in place a container handed out by a BpSeq / DotBracket object")
-    why = c01e.history_fact(chk, c01e.OBJECT_QUERIES, process=True)
+    why = c01e.history_fact(chk, c01e.OBJECT_QUERIES, process=True, solver_change=True)
     if why is not None:
         chk.ok("history-independent", "-", f"call histories not evaluable ({why[:120]}); the effect analysis above is the decision")
 
